@@ -415,3 +415,20 @@ add('c13-caller-step-dropped', ['C13'], 'fire', 'Slicer.parse_slice',
 add('c13-explicit-edge-stop', ['C13', 'C07'], 'silent', 'Slicer.parse_slice',
     'return slice(start, stop, step)', 'return slice(start, len(labels) if stop is None else stop, step)',
     'an open stop written as the edge of the plate', module=S)
+
+# ------------------------------------------------------------------------------------------------ identity discipline
+add('c01-hash-with-specific-activity', ['C01', 'C10'], 'fire', 'Substance.__hash__',
+    'hash((self.name, self._type, self.mol_weight, self.density, self.concentration))',
+    'hash((self.name, self._type, self.mol_weight, self.density, self.concentration, self.specific_activity))',
+    'equal substances hash differently: the entry of an equal key is missed')
+add('c10-container-eq-without-contents', ['C10'], 'fire', 'Container.__eq__',
+    'self.name == other.name and self.contents == other.contents and (self.volume == other.volume)',
+    'self.name == other.name and (self.volume == other.volume)',
+    'containers that differ in contents are one cache key')
+add('c10-container-hash-without-contents', ['C10'], 'silent', 'Container.__hash__',
+    'hash((self.name, self.volume, self.max_volume, *tuple(map(tuple, self.contents.items()))))',
+    'hash((self.name, self.volume, self.max_volume))',
+    'a coarser hash is legal (equal objects still hash equally): same answers, more collisions')
+add('c01-eq-conjunction-reordered', ['C01', 'C10'], 'silent', 'Substance.__eq__',
+    'self.name == other.name and self._type == other._type', 'self._type == other._type and self.name == other.name',
+    'order of the conjunction')
